@@ -111,6 +111,8 @@ class System:
                 setattr(self.t, a["n"], self.mkref(a["ref"]))
             elif n == "plain":
                 setattr(self.t, a["n"], [7, 7] if a["n"] == "r" else a["v"])
+            elif n == "trigger":
+                self.t.param.trigger(a["n"])
             elif n == "plaineq":
                 self.t.k = float(self.t.k)
             elif n == "enterupd":
